@@ -32,6 +32,9 @@ struct U<'a> {
     w: &'a World,
     account: Address,
     signers: Vec<Signer>, // 0..3 delegated, 3..6 external (mock verifier), 6..8 external (real ed25519 verifier)
+    /// sixteen more signers (mock verifier) that no rule ever names: a signature map may carry more entries
+    /// than any single rule may list
+    crowd: Vec<Signer>,
     policies: Vec<Address>, // mock policies
     threshold_policy: Address,
     verifier: Address,
@@ -127,7 +130,8 @@ fn history(cfg: &Cfg, rep: &mut Report, h: u64, rounds: usize) {
     let init_signers: SVec<Signer> = SVec::from_array(e, [signers[0].clone()]);
     let no_pol: Map<Address, Val> = Map::new(e);
     let account = e.register(MultisigContract, (init_signers, no_pol));
-    let u = U { w: &w, account: account.clone(), signers, policies, threshold_policy, verifier, verifier2, ed_verifier, ed_keys, targets, wasms };
+    let crowd: Vec<Signer> = (0..16u8).map(|i| Signer::External(verifier.clone(), Bytes::from_array(e, &[100 + i; 8]))).collect();
+    let u = U { w: &w, account: account.clone(), signers, crowd, policies, threshold_policy, verifier, verifier2, ed_verifier, ed_keys, targets, wasms };
     rep.op(format!("deploy multisig account ledger={}", w.ledger()));
     // scripts of the mock policies: (policy index, rule id) -> bits
     let mut scripts: std::collections::BTreeMap<(usize, u32), u32> = Default::default();
@@ -338,8 +342,15 @@ fn history(cfg: &Cfg, rep: &mut Report, h: u64, rounds: usize) {
             let t0 = ctx_type(&ctxs[0]);
             let cands: Vec<&MRule> = rules.iter().filter(|r| r.ctype == t0 || r.ctype == ContextRuleType::Default).collect();
             let base: Vec<Signer> = if cands.is_empty() { vec![] } else { rng.pick(&cands).signers.clone() };
-            let class = rng.below(6);
+            let class = rng.below(7);
             let mut supplied: Vec<Signer> = match class {
+                6 => {
+                    // the rule's signers and a crowd of outsiders: sixteen or more entries in one map
+                    let mut s = base.clone();
+                    s.extend(u.crowd.iter().cloned());
+                    rep.count("signature_maps_with_more_than_15_entries");
+                    s
+                }
                 0 | 1 => base.clone(),
                 2 => base.iter().skip(1).cloned().collect(),
                 3 => {
